@@ -168,3 +168,86 @@ def run(rep, F, rule, select=None):
 
 def fmtw(w):
     return "[" + " ".join("(%s,%s)" % (c["x"], c["y"]) if isinstance(c, dict) else str(c) for c in w) + "]"
+
+
+
+def sequence_tables(rep, F, rule):
+    """LineString as a sequence, on a concrete line string [a, b, c] (and the closed [a, b, a]): conversions from Line / Vec keep the coordinates in
+    order; into_inner / points / into_points / lines / rev_lines / triangles / indexing yield what their names say (iterators drained step by
+    step); is_closed compares first and last."""
+    from ..citer import drain_value
+    from ..symex import show
+    import re
+    rep.rule(rule, "LineString as a sequence ([a, b, c]): From<Line> = [start, end]; From<Vec> keeps order; into_inner / points / into_points = a, b, c; lines = (a,b),(b,c); rev_lines = (c,b),(b,a); ls[i] = i-th coordinate; is_closed iff first == last")
+    LS = GT + "line_string::LineString"
+
+    def vec(items):
+        return ("call", "vec!", (("array", tuple(items)),))
+
+    def N(n):
+        return ("opaque", n)
+    ls = ("adt", LS, "LineString", (vec([N("a"), N("b"), N("c")]),))
+
+    def names(t):
+        return re.findall(r"opaque\((\w)\)", show(t))
+
+    def run(pat, args):
+        fn = F.one(pat, crates=("geo_types",))
+        ex = Symex(F, concrete_iters=True, loop_bound=10, inline_crates=("geo_types",), max_depth=12)
+        ex.resolve_by_receiver = True
+        ps = [p for p in ex.run(fn, args=args) if p.kind != "cut"]
+        if len(ps) != 1 or ps[0].kind != "ret" or ps[0].pc:
+            raise Unanalysable("%d paths on a concrete line string" % len(ps))
+        return fn, ps[0].ret
+    n = 0
+    cases = [
+        ("From<Line>", r"^<%sline_string::LineString<T> as core::convert::From<%sline::Line<T>>>::from$" % (GT, GT), [line(N("a"), N("b"))], False, ["a", "b"]),
+        ("From<&Line>", r"^<%sline_string::LineString<T> as core::convert::From<&%sline::Line<T>>>::from$" % (GT, GT), [("&", line(N("a"), N("b")))], False, ["a", "b"]),
+        ("From<Vec>", r"^<%sline_string::LineString<T> as core::convert::From<alloc::vec::Vec<IC>>>::from$" % GT, [vec([N("a"), N("b"), N("c")])], False, ["a", "b", "c"]),
+        ("into_inner", r"^%sline_string::LineString::<T>::into_inner$" % GT, [ls], False, ["a", "b", "c"]),
+        ("into_points", r"^%sline_string::LineString::<T>::into_points$" % GT, [ls], False, ["a", "b", "c"]),
+        ("points", r"^%sline_string::LineString::<T>::points$" % GT, [("&", ls)], True, ["a", "b", "c"]),
+        ("lines", r"^%sline_string::LineString::<T>::lines$" % GT, [("&", ls)], True, ["a", "b", "b", "c"]),
+        ("rev_lines", r"^%sline_string::LineString::<T>::rev_lines$" % GT, [("&", ls)], True, ["c", "b", "b", "a"]),
+        ("index[0]", r"^<%sline_string::LineString<T> as core::ops::index::Index<usize>>::index$" % GT, [("&", ls), ("const", 0)], False, ["a"]),
+        ("index[2]", r"^<%sline_string::LineString<T> as core::ops::index::Index<usize>>::index$" % GT, [("&", ls), ("const", 2)], False, ["c"]),
+    ]
+    for key, pat, args, drain, want in cases:
+        try:
+            fn, r = run(pat, args)
+            got = []
+            if drain:
+                for it in drain_value(F, r):
+                    got += names(it)
+            else:
+                got = names(r)
+            if got == want:
+                n += 1
+                rep.ok(rule, "seq:%s" % key, sample=got)
+            else:
+                rep.bad(rule, "seq:%s" % key, "LineString %s yields the coordinates %s, expected %s" % (key, got, want), where=fn.loc())
+        except (KeyError, Unanalysable) as e:
+            rep.bad(rule, "seq:%s:unanalysable" % key, str(e))
+    # is_closed on closed / open / empty line strings
+    try:
+        for coords, want in ((["a", "b", "a"], ("const", True)), ([], None)):
+            pass
+        fn = F.one(r"^%sline_string::LineString::<T>::is_closed$" % GT, crates=("geo_types",))
+        from ..numeval import NumEval
+        ex = Symex(F, concrete_iters=True, loop_bound=10, inline_crates=("geo_types",), max_depth=12)
+        paths = [p for p in ex.run(fn, args=[("&", ("adt", LS, "LineString", (vec([N("a"), N("b"), N("c")]),)))]) if p.kind != "cut"]
+        okc = True
+        for va, vc in (((0, 0), (0, 0)), ((0, 0), (1, 0)), ((0, 1), (0, 0))):
+            ev = NumEval(F, {N("a"): {"x": va[0], "y": va[1]}, N("b"): {"x": 5, "y": 5}, N("c"): {"x": vc[0], "y": vc[1]}})
+            hit = ev.select_path(paths)
+            got = [bool(ev.ev(h.ret)) for h in hit if h.kind == "ret"]
+            if got != [va == vc]:
+                okc = False
+                rep.bad(rule, "seq:is_closed", "is_closed([%s, b, %s]) = %s" % (va, vc, got), where=fn.loc())
+                break
+        if okc:
+            n += 1
+            rep.ok(rule, "seq:is_closed")
+    except (KeyError, Unanalysable, Exception) as e:
+        rep.bad(rule, "seq:is_closed:unanalysable", str(e))
+    rep.floor(rule, "sequence tables", n, 11)
